@@ -403,7 +403,10 @@ def write_replay(pid, n, data):
 
 
 def write_evidence(pid, ev):
-    d = VERIF / 'evidence'
+    # evidence/ only ever describes runs against /repo itself; runs against another tree (seeded changes,
+    # scratch worktrees) write their record next to the work files
+    d = VERIF / 'evidence' if str(REPO) == '/repo' else WORK / 'evidence_other_tree'
+    d.mkdir(parents=True, exist_ok=True)
     d.mkdir(exist_ok=True)
     (d / f'{pid}.json').write_text(json.dumps(ev, indent=1) + '\n')
 
